@@ -49,7 +49,7 @@ PROP = dict(
     rule="tours of 0..6 activities feasible by construction (windows placed around the simulated arrival with slack 0..1000, "
          "capacity = max load + 0..5), open and closed, static/dynamic/replacement/mixed demand in 1-2 dimensions, candidate job with "
          "1-2 places x 1-3 windows (sorted or not); evaluated for Any and every Concrete(p). Non-trivial: tour has >= 2 activities and the "
-         "job has both accepted and rejected positions. Distinct = SHA-256 of the canonical case input",
+         "job has both accepted and rejected positions. Distinct = SHA-256 of the canonical case input A third of the multi-task candidates have three tasks (two pickups and the delivery of both, or a pickup delivered in two parts).",
     modelled="TransportConstraint::evaluate_job/evaluate_activity, update_schedules/update_states (latest arrival), has_demand_violation + "
              "recalculate_states (without markers: C06; with reload markers, i.e. per route interval with the load carried across a reload, CapacitatedMultiTrip::recalculate_states / "
              "evaluate_activity / can_handle_demand_on_intervals and RouteIntervals::get_marker_intervals: C06Iv), eval_job_insertion_in_route/eval_single/analyze_insertion_in_route(_leg) with "
